@@ -125,14 +125,15 @@ type Interp struct {
 	NonNilCalls map[string]bool
 	MaxSteps    int
 
-	Effects []Effect
-	Und     string
-	UndCond string // key of the undetermined branch condition, if that is why the run is undecided
-	Used    map[string]bool
-	steps   int
-	allocN  int
-	mem     map[string]AV
-	depth   int
+	Effects  []Effect
+	Und      string
+	UndCond  string // key of the undetermined branch condition, if that is why the run is undecided
+	Used     map[string]bool
+	steps    int
+	allocN   int
+	mem      map[string]AV
+	closures map[string]closureVal
+	depth    int
 }
 
 // Outcome is the result of one run.
@@ -192,6 +193,12 @@ func (o AOutcome) Stores() (ss []string) {
 		}
 	}
 	return ss
+}
+
+// closureVal is a closure created during a run: its function and bound values.
+type closureVal struct {
+	fn       *ssa.Function
+	bindings []AV
 }
 
 type frame struct {
@@ -513,6 +520,21 @@ func (it *Interp) doCall(fr *frame, c ssa.CallInstruction, deferred bool) AV {
 		}
 		return AV{Kind: KTuple, Tup: ret}
 	}
+	// a call through a function value that is a closure created during this run
+	if callee == nil && !cc.IsInvoke() && !deferred {
+		if fv := it.val(fr, cc.Value); fv.Kind == KNonNil && strings.HasPrefix(fv.Key, "closure:") {
+			if cv, ok := it.closures[fv.Key]; ok && cv.fn != nil && cv.fn.Blocks != nil && it.Inline != nil && it.Inline(cv.fn) {
+				ret, exit := it.call(cv.fn, args, cv.bindings)
+				if exit == "panic" {
+					it.und("inlined closure %s panics", FnKey(cv.fn))
+				}
+				if len(ret) == 1 {
+					return ret[0]
+				}
+				return AV{Kind: KTuple, Tup: ret}
+			}
+		}
+	}
 	name := it.calleeKey(fr, c)
 	var aks []string
 	for _, a := range args {
@@ -767,6 +789,16 @@ func (it *Interp) compute(fr *frame, v ssa.Value) AV {
 		return it.lookup(t.String() + fmt.Sprintf("#%d", x.Index))
 	case *ssa.MakeClosure:
 		f, _ := x.Fn.(*ssa.Function)
+		// remember the closure's bindings so that a later call through a
+		// function value (a callback parameter of an inlined helper) can run it
+		if it.closures == nil {
+			it.closures = map[string]closureVal{}
+		}
+		var bs []AV
+		for _, b := range x.Bindings {
+			bs = append(bs, it.val(fr, b))
+		}
+		it.closures["closure:"+FnKey(f)] = closureVal{fn: f, bindings: bs}
 		return NonNil("closure:" + FnKey(f))
 	case *ssa.MakeSlice:
 		if k, ok := ConstInt(x.Len); ok && k == 0 {
